@@ -19,7 +19,7 @@
    are false without them. *)
 From Coq Require Import List NArith ZArith Bool Arith. Import ListNotations.
 From WV Require Import Gen.Ops Model.Common Model.IR Model.Arena Model.Builder Model.ModuleM Model.ParseM Model.Edit.
-From WV Require Import Proofs.Edit.
+From WV Require Import Model.EmitM Model.GC Proofs.Edit Proofs.GcDeclare Proofs.EditDeclare.
 Local Open Scope nat_scope.
 
 Theorem c18_replace_imported m fid body m' :
@@ -73,44 +73,69 @@ Theorem c18_imported_refused_when_not_import_kind m fid body iid f :
   replace_imported_func m fid body = PErr.
 Proof. exact (imported_I8_not_import_kind m fid body iid f). Qed.
 
-Theorem c18_replace_exported m fid body m' nid :
-  Forall (fun d => d < length (items (m_funcs m))) (dead (m_funcs m)) ->
-  types_wf (m_types m) ->
-  replace_exported_func m fid body = POk (m', nid) ->
-  exists eid e f lf0 t lf,
-    exported_func_export m fid = Some eid /\ aget (m_exports m) eid = Some e /\
-    ex_kind e = EK_Func /\ ex_item e = fid /\
-    aget (m_funcs m) fid = Some f /\ fn_kind f = FK_Local lf0 /\ types_get m (lf_ty lf0) = Some t /\
-    (* E1 *) (nid = N.of_nat (length (items (m_funcs m))) /\
-              aget (m_funcs m') nid = Some {| fn_kind := FK_Local lf; fn_name := None |} /\
-              (exists t', types_get m' (lf_ty lf) = Some t' /\
-                 ty_params t' = ty_params t /\ ty_results t' = ty_results t /\ ty_entry t' = false) /\
-              lf_args lf = lf_args lf0) /\
-    (* E2 *) (forall g, N.to_nat g < length (items (m_funcs m)) -> aget (m_funcs m') g = aget (m_funcs m) g) /\
-    (* E3 *) (aget (m_exports m') eid = Some {| ex_name := ex_name e; ex_kind := ex_kind e; ex_item := nid |} /\
-              (forall x, x <> eid -> aget (m_exports m') x = aget (m_exports m) x) /\
-              length (items (m_exports m')) = length (items (m_exports m)) /\
-              dead (m_exports m') = dead (m_exports m)) /\
-    (* E4 *) (m_imports m' = m_imports m /\ m_tables m' = m_tables m /\ m_memories m' = m_memories m /\
-              m_globals m' = m_globals m /\ m_elements m' = m_elements m /\ m_data m' = m_data m /\
-              m_start m' = m_start m /\ m_customs m' = m_customs m /\ m_locals m' = m_locals m /\
-              m_producers m' = m_producers m /\ m_name m' = m_name m /\ m_config m' = m_config m) /\
-    (* body *) (exists m2 ty ety ar, builder_new m (ty_params t) (ty_results t) = (m2, ty, ety) /\
-                  run_builder ety (body (lf_args lf0)) = Ok ar /\ lf_arena lf = ar /\ lf_ty lf = ty) /\
-    types_wf (m_types m') /\
-    Forall (fun d => d < length (items (m_funcs m'))) (dead (m_funcs m')).
-Proof. exact (replace_exported_spec m fid body m' nid). Qed.
+Theorem c18_replace_exported :
+  forall (m : wir) (fid : N) (body : list N -> list bop) (m' : wir) (nid : N),
+         Forall (fun d : nat => (d < length (items (m_funcs m)))%nat) (dead (m_funcs m)) ->
+         types_wf (m_types m) ->
+         replace_exported_func m fid body = POk (m', nid) ->
+         exists (eid : N) (e : mexport) (f : mfunc) (lf0 : mlocalfunc) (t : mtype) 
+         (lf : mlocalfunc),
+           exported_func_export m fid = Some eid /\
+           aget (m_exports m) eid = Some e /\
+           ex_kind e = EK_Func /\
+           ex_item e = fid /\
+           aget (m_funcs m) fid = Some f /\
+           fn_kind f = FK_Local lf0 /\
+           types_get m (lf_ty lf0) = Some t /\
+           (nid = N.of_nat (length (items (m_funcs m))) /\
+            aget (m_funcs m') nid = Some {| fn_kind := FK_Local lf; fn_name := None |} /\
+            (exists t' : mtype,
+               types_get m' (lf_ty lf) = Some t' /\
+               ty_params t' = ty_params t /\ ty_results t' = ty_results t /\ ty_entry t' = false) /\
+            lf_args lf = lf_args lf0) /\
+           (forall g : N,
+            (N.to_nat g < length (items (m_funcs m)))%nat -> aget (m_funcs m') g = aget (m_funcs m) g) /\
+           (aget (m_exports m') eid = Some {| ex_name := ex_name e; ex_kind := ex_kind e; ex_item := nid |} /\
+            (forall x : N, x <> eid -> aget (m_exports m') x = aget (m_exports m) x) /\
+            length (items (m_exports m')) = length (items (m_exports m)) /\
+            dead (m_exports m') = dead (m_exports m)) /\
+           (m_imports m' = m_imports m /\
+            m_tables m' = m_tables m /\
+            m_memories m' = m_memories m /\
+            m_globals m' = m_globals m /\
+            ((forall (id : N) (x : melem), aget (m_elements m) id = Some x -> aget (m_elements m') id = Some x) /\
+             (m_elements m' = m_elements m \/
+              (exists fs : list N,
+                 fs <> [] /\
+                 items (m_elements m') =
+                 items (m_elements m) ++
+                 [{| el_kind := ELK_Declared; el_items := ELI_Funcs fs; el_name := None |}] /\
+                 dead (m_elements m') = dead (m_elements m)))) /\
+            m_data m' = m_data m /\
+            m_start m' = m_start m /\
+            m_customs m' = m_customs m /\
+            m_locals m' = m_locals m /\
+            m_producers m' = m_producers m /\ m_name m' = m_name m /\ m_config m' = m_config m) /\
+           (exists (m2 : wir) (ty ety : N) (ar : IR.arena),
+              builder_new m (ty_params t) (ty_results t) = (m2, ty, ety) /\
+              run_builder ety (body (lf_args lf0)) = Ok ar /\ lf_arena lf = ar /\ lf_ty lf = ty) /\
+           types_wf (m_types m') /\
+           Forall (fun d : nat => (d < length (items (m_funcs m')))%nat) (dead (m_funcs m')).
+Proof. exact replace_exported_spec_full. Qed.
 
-Theorem c18_exported_refused_when_not_exported m fid body :
-  (forall i e, aget (m_exports m) i = Some e -> ~ (ex_kind e = EK_Func /\ ex_item e = fid)) ->
-  replace_exported_func m fid body = PErr.
-Proof. exact (exported_E5_not_exported m fid body). Qed.
+Theorem c18_exported_refused_when_not_exported :
+  forall (m : wir) (fid : N) (body : list N -> list bop),
+         (forall (i : N) (e : mexport),
+          aget (m_exports m) i = Some e -> ~ (ex_kind e = EK_Func /\ ex_item e = fid)) ->
+         replace_exported_func m fid body = PErr.
+Proof. exact exported_E5_not_exported_full. Qed.
 
-Theorem c18_exported_refused_when_not_local m fid body eid f :
-  exported_func_export m fid = Some eid -> aget (m_funcs m) fid = Some f ->
-  (forall lf, fn_kind f <> FK_Local lf) ->
-  replace_exported_func m fid body = PErr.
-Proof. exact (exported_E5_not_local m fid body eid f). Qed.
+Theorem c18_exported_refused_when_not_local :
+  forall (m : wir) (fid : N) (body : list N -> list bop) (eid : N) (f : mfunc),
+         exported_func_export m fid = Some eid ->
+         aget (m_funcs m) fid = Some f ->
+         (forall lf : mlocalfunc, fn_kind f <> FK_Local lf) -> replace_exported_func m fid body = PErr.
+Proof. exact exported_E5_not_local_full. Qed.
 
 Theorem c18_premise_types_wf_needed :
   exists m fid body m' f imp tid t f' lf,
@@ -121,11 +146,113 @@ Theorem c18_premise_types_wf_needed :
 Proof. exact imported_I2_refuted. Qed.
 
 Theorem c18_premise_no_tombstone_beyond_arena_needed :
-  exists m fid body m' nid,
-    types_wf (m_types m) /\
-    replace_exported_func m fid body = POk (m', nid) /\
-    aget (m_funcs m') nid = None.
-Proof. exact exported_E1_refuted. Qed.
+  exists (m : wir) (fid : N) (body : list N -> list bop) (m' : wir) (nid : N),
+           types_wf (m_types m) /\
+           replace_exported_func m fid body = POk (m', nid) /\ aget (m_funcs m') nid = None.
+Proof. exact exported_E1_refuted_full. Qed.
+
+(* ---- the last step of replace_exported_func (repair c668bb7): the retargeted export may have been the only thing declaring the original function
+   for `ref.func`; the core edit alone leaves it undeclared (witness on a parsed module); the whole edit ends with nothing undeclared, adds at
+   most one declared segment listing exactly the undeclared functions, and the new step cannot panic on a parsed module whose replacement
+   body can be traversed (premise needed: witness) *)
+Theorem c18_parse_then_replace_exported :
+  forall (cf : config) (ver : str) (w : wmod) (s : pst) (fid : N) (body : list N -> list bop) 
+           (m' : wir) (nid : N),
+         parseM cf ver w = POk s ->
+         let m := ps_m s in
+         replace_exported_func m fid body = POk (m', nid) ->
+         exists (eid : N) (e : mexport) (f : mfunc) (lf0 : mlocalfunc) (t : mtype) 
+         (lf : mlocalfunc),
+           exported_func_export m fid = Some eid /\
+           aget (m_exports m) eid = Some e /\
+           ex_kind e = EK_Func /\
+           ex_item e = fid /\
+           aget (m_funcs m) fid = Some f /\
+           fn_kind f = FK_Local lf0 /\
+           types_get m (lf_ty lf0) = Some t /\
+           (nid = N.of_nat (length (items (m_funcs m))) /\
+            aget (m_funcs m') nid = Some {| fn_kind := FK_Local lf; fn_name := None |} /\
+            (exists t' : mtype,
+               types_get m' (lf_ty lf) = Some t' /\
+               ty_params t' = ty_params t /\ ty_results t' = ty_results t /\ ty_entry t' = false) /\
+            lf_args lf = lf_args lf0) /\
+           (forall g : N,
+            (N.to_nat g < length (items (m_funcs m)))%nat -> aget (m_funcs m') g = aget (m_funcs m) g) /\
+           (aget (m_exports m') eid = Some {| ex_name := ex_name e; ex_kind := ex_kind e; ex_item := nid |} /\
+            (forall x : N, x <> eid -> aget (m_exports m') x = aget (m_exports m) x) /\
+            length (items (m_exports m')) = length (items (m_exports m)) /\
+            dead (m_exports m') = dead (m_exports m)) /\
+           (m_imports m' = m_imports m /\
+            m_tables m' = m_tables m /\
+            m_memories m' = m_memories m /\
+            m_globals m' = m_globals m /\
+            ((forall (id : N) (x : melem), aget (m_elements m) id = Some x -> aget (m_elements m') id = Some x) /\
+             (m_elements m' = m_elements m \/
+              (exists fs : list N,
+                 fs <> [] /\
+                 items (m_elements m') =
+                 items (m_elements m) ++
+                 [{| el_kind := ELK_Declared; el_items := ELI_Funcs fs; el_name := None |}] /\
+                 dead (m_elements m') = dead (m_elements m)))) /\
+            m_data m' = m_data m /\
+            m_start m' = m_start m /\
+            m_customs m' = m_customs m /\
+            m_locals m' = m_locals m /\
+            m_producers m' = m_producers m /\ m_name m' = m_name m /\ m_config m' = m_config m) /\
+           (exists (m2 : wir) (ty ety : N) (ar : IR.arena),
+              builder_new m (ty_params t) (ty_results t) = (m2, ty, ety) /\
+              run_builder ety (body (lf_args lf0)) = Ok ar /\ lf_arena lf = ar /\ lf_ty lf = ty) /\
+           types_wf (m_types m') /\
+           Forall (fun d : nat => (d < length (items (m_funcs m')))%nat) (dead (m_funcs m')).
+Proof. exact parse_then_replace_exported_full. Qed.
+Theorem c18_replace_exported_declares_all_referenced :
+  forall (cf : config) (ver : str) (w : wmod) (s : pst) (fid : N) (body : list N -> list bop) 
+           (m' : wir) (nid : N),
+         parseM cf ver w = POk s ->
+         replace_exported_func (ps_m s) fid body = POk (m', nid) -> undeclared_funcs m' = Ok [].
+Proof. exact replace_exported_declares_all_referenced_after_parse. Qed.
+Theorem c18_replace_exported_declares_all_referenced_wf :
+  forall (m : wir) (fid : N) (body : list N -> list bop) (m' : wir) (nid : N),
+         dead_in_range (m_elements m) ->
+         replace_exported_func m fid body = POk (m', nid) -> undeclared_funcs m' = Ok [].
+Proof. exact replace_exported_declares_all_referenced_partial. Qed.
+Theorem c18_core_edit_leaves_undeclared :
+  exists (w : wmod) (s : pst) (fid : N) (body : list N -> list bop) (m1 : wir) 
+         (nid : N),
+           parseM default_config [49%N] w = POk s /\
+           aiter (m_elements (ps_m s)) = [] /\
+           undeclared_funcs (ps_m s) = Ok [] /\
+           replace_exported_func_core (ps_m s) fid body = POk (m1, nid) /\
+           (exists (f : N) (fs : list N), undeclared_funcs m1 = Ok (f :: fs)).
+Proof. exact core_leaves_undeclared_after_parse_refuted. Qed.
+Theorem c18_declare_step_does_not_panic :
+  forall (cf : config) (ver : str) (w : wmod) (s : pst) (fid : N) (body : list N -> list bop) 
+           (m1 : wir) (nid : N),
+         ParseTotal.valid_stream w ->
+         parseM cf ver w = POk s ->
+         replace_exported_func_core (ps_m s) fid body = POk (m1, nid) ->
+         (forall (fn : mfunc) (lf : mlocalfunc),
+          aget (m_funcs m1) nid = Some fn ->
+          fn_kind fn = FK_Local lf -> exists evs : list Traversal.ev, lf_log lf = Ok evs) ->
+         exists m' : wir, replace_exported_func (ps_m s) fid body = POk (m', nid).
+Proof. exact replace_exported_no_panic_from_declare. Qed.
+Theorem c18_declare_step_premise_needed :
+  exists (w : wmod) (s : pst) (fid : N) (body : list N -> list bop) (m1 : wir) 
+         (nid : N),
+           ParseTotal.valid_stream w /\
+           parseM default_config [49%N] w = POk s /\
+           replace_exported_func_core (ps_m s) fid body = POk (m1, nid) /\
+           replace_exported_func (ps_m s) fid body = PPanic.
+Proof. exact replace_exported_no_panic_from_declare_refuted. Qed.
+Theorem c18_new_segment_lists_exactly_the_undeclared :
+  forall (m : wir) (fid : N) (body : list N -> list bop) (m' : wir) (nid : N),
+         replace_exported_func m fid body = POk (m', nid) ->
+         exists (m1 : wir) (fs : list N),
+           replace_exported_func_core m fid body = POk (m1, nid) /\
+           undeclared_funcs m1 = Ok fs /\
+           (fs = [] /\ m_elements m' = m_elements m \/
+            fs <> [] /\ m_elements m' = fst (aalloc (m_elements m) (decl_seg fs))).
+Proof. exact replace_exported_new_segment. Qed.
 
 Print Assumptions c18_replace_imported.
 Print Assumptions c18_imported_removes_first_import_of_f.
@@ -136,3 +263,10 @@ Print Assumptions c18_exported_refused_when_not_exported.
 Print Assumptions c18_exported_refused_when_not_local.
 Print Assumptions c18_premise_types_wf_needed.
 Print Assumptions c18_premise_no_tombstone_beyond_arena_needed.
+Print Assumptions c18_parse_then_replace_exported.
+Print Assumptions c18_replace_exported_declares_all_referenced.
+Print Assumptions c18_replace_exported_declares_all_referenced_wf.
+Print Assumptions c18_core_edit_leaves_undeclared.
+Print Assumptions c18_declare_step_does_not_panic.
+Print Assumptions c18_declare_step_premise_needed.
+Print Assumptions c18_new_segment_lists_exactly_the_undeclared.
